@@ -238,7 +238,7 @@ func c06(c *core.Ctx) {
 						field = ssax.FieldOf(st.Addr.(*ssa.FieldAddr)).Name()
 					}
 				}
-				dup := ssax.LoadOfField(pktPkg + ".Properties." + field)(x.Call.Args[0])
+				dup := ssax.LoadOfField(pktPkg + ".Properties." + field)(rawArgs(x)[0])
 				dec[tag] = pr{field, k, dup}
 			}
 		case *ssa.Store:
@@ -259,12 +259,12 @@ func c06(c *core.Ctx) {
 		}
 		if sc := call.Call.StaticCallee(); sc != nil {
 			if k, ok := kindOfWrite[sc.Name()]; ok {
-				tag, isC := constInt(call.Call.Args[0])
+				tag, isC := constInt(rawArgs(call)[0])
 				if !isC {
 					return
 				}
 				field := ""
-				for v := range ssax.BackwardDirect(call.Call.Args[1], nil) {
+				for v := range ssax.BackwardDirect(rawArgs(call)[1], nil) {
 					if o := ssax.FieldOwner(v); strings.HasPrefix(o, pktPkg+".Properties.") {
 						field = strings.TrimPrefix(o, pktPkg+".Properties.")
 					}
@@ -274,7 +274,7 @@ func c06(c *core.Ctx) {
 			}
 		}
 		if isCallTo(call, "(*bytes.Buffer).WriteByte") {
-			if tag, isC := constInt(call.Call.Args[1]); isC {
+			if tag, isC := constInt(rawArgs(call)[1]); isC {
 				if _, isProp := byVal[tag]; isProp {
 					// the list being ranged over in this loop
 					field := ""
@@ -339,7 +339,7 @@ func c06(c *core.Ctx) {
 				sizes = []ssa.Value{x.Len, x.Cap}
 			case *ssa.Call:
 				if isCallTo(x, "(*bytes.Buffer).Grow") {
-					sizes = []ssa.Value{x.Call.Args[1]}
+					sizes = []ssa.Value{rawArgs(x)[1]}
 				}
 			}
 			if sizes == nil {
@@ -431,10 +431,10 @@ func c06(c *core.Ctx) {
 			var amount ssa.Value
 			var body ssa.Value
 			if isCallTo(cs, pktPkg+".readRemain") {
-				amount = cs.Call.Args[1]
+				amount = rawArgs(cs)[1]
 				body = ssax.ExtractOf(cs, 0)
 			} else {
-				body = cs.Call.Args[1]
+				body = rawArgs(cs)[1]
 				if ms, ok := body.(*ssa.MakeSlice); ok {
 					amount = ms.Len
 				}
@@ -459,7 +459,7 @@ func c06(c *core.Ctx) {
 		var sub ssa.Value
 		ssax.Instrs(unpack, false, func(_ *ssa.Function, in ssa.Instruction) {
 			if call, ok := in.(*ssa.Call); ok && isCallTo(call, "bytes.NewBuffer") {
-				if ssax.AnyIn(ssax.BackwardOpt(call.Call.Args[0], func(cl *ssa.Call) bool { return true }), func(v ssa.Value) bool { return isCallTo(v, pktPkg+".EncodeRemainLength") }) {
+				if ssax.AnyIn(ssax.BackwardOpt(rawArgs(call)[0], func(cl *ssa.Call) bool { return true }), func(v ssa.Value) bool { return isCallTo(v, pktPkg+".EncodeRemainLength") }) {
 					sub = call
 				}
 			}
@@ -482,9 +482,9 @@ func c06(c *core.Ctx) {
 					nReads++
 				}
 			}
-			if isCallTo(call, "(*bytes.Buffer).Next") && call.Call.Args[0] == ssa.Value(paramOf(unpack, 1)) {
+			if isCallTo(call, "(*bytes.Buffer).Next") && rawArgs(call)[0] == ssa.Value(paramOf(unpack, 1)) {
 				// Next(length) with the decoded property length
-				if !ssax.AnyIn(ssax.Backward(call.Call.Args[1]), func(v ssa.Value) bool { return isCallTo(v, pktPkg+".EncodeRemainLength") }) {
+				if !ssax.AnyIn(ssax.Backward(rawArgs(call)[1]), func(v ssa.Value) bool { return isCallTo(v, pktPkg+".EncodeRemainLength") }) {
 					okSub = false
 				}
 			}
@@ -520,7 +520,7 @@ func c06(c *core.Ctx) {
 				if !ok || ci.Common().StaticCallee() != put {
 					return
 				}
-				arg := ci.Common().Args[0]
+				arg := rawArgs(ci)[0]
 				same := arg == buf || ssax.AnyIn(ssax.Backward(arg), func(v ssa.Value) bool { return v == buf })
 				if !same {
 					// captured through a cell
